@@ -151,8 +151,10 @@ func TestGeneratorRequestsExactlyMissing(t *testing.T) {
 		size := 1 << sizeExp
 		skip := rapid.OneOf(rapid.Just(0), rapid.Just(0), rapid.IntRange(1, 5), rapid.IntRange(size-3, size+2)).Draw(t, "skipLastN")
 		limit := rapid.SampledFrom([]int{0, 0, 1, 2, 5}).Draw(t, "maxNacksPerPacket")
-		f, err := nack.NewGeneratorInterceptor(nack.GeneratorSize(uint16(size)), nack.GeneratorSkipLastN(uint16(skip)), //nolint:gosec
-			nack.GeneratorMaxNacksPerPacket(uint16(limit)), nack.GeneratorInterval(interval)) //nolint:gosec
+		// the options are independent settings: the order in which the application lists them does not matter
+		opts := rapid.Permutation([]nack.GeneratorOption{nack.GeneratorSize(uint16(size)), nack.GeneratorSkipLastN(uint16(skip)), //nolint:gosec
+			nack.GeneratorMaxNacksPerPacket(uint16(limit)), nack.GeneratorInterval(interval)}).Draw(t, "optionOrder") //nolint:gosec
+		f, err := nack.NewGeneratorInterceptor(opts...)
 		if err != nil {
 			t.Fatalf("factory: %v", err)
 		}
@@ -192,14 +194,26 @@ func TestGeneratorRequestsExactlyMissing(t *testing.T) {
 		}
 		nA := rapid.IntRange(1, 2).Draw(t, "nackStreams")
 		var streams []*bound
+		firstSSRC := rapid.SampledFrom([]uint32{100, 100, 0, 0xFFFFFFFF}).Draw(t, "firstSSRC") // any 32-bit value identifies a stream
 		for i := 0; i < nA; i++ {
-			b := mk(uint32(100+i), true) //nolint:gosec
+			ssrc := uint32(100 + i) //nolint:gosec
+			if i == 0 {
+				ssrc = firstSSRC
+			}
+			b := mk(ssrc, true)
 			b.cursor = kit.U16Boundary().Draw(t, "start")
 			streams = append(streams, b)
 		}
 		plain := mk(300, false)
 		plain.cursor = 500
 		streams = append(streams, plain)
+		// a further NACK stream comes and goes during the history: its Unbind concerns no other stream
+		extra := mk(400, true)
+		for _, q := range []uint16{7, 8, 10, 12} {
+			if err := extra.feed(q, false); err != nil {
+				t.Fatalf("extra feed: %v", err)
+			}
+		}
 		sentinel := mk(sentinelSSRC, true)
 		sentinelOK := skip < size // otherwise the window behind highest-skipLastN is empty for every stream
 		sentNext := uint16(1000)
@@ -352,7 +366,12 @@ func TestGeneratorRequestsExactlyMissing(t *testing.T) {
 		n := rapid.IntRange(1, 400).Draw(t, "arrivals")
 		obsLeft := 6
 		advanced := map[*bound]int{}
+		unbindExtraAt := rapid.IntRange(0, n).Draw(t, "unbindExtraAt")
 		for i := 0; i < n; i++ {
+			if i == unbindExtraAt {
+				ic.UnbindRemoteStream(extra.info)
+				classes["other-stream-unbound"] = true
+			}
 			b := streams[rapid.IntRange(0, len(streams)-1).Draw(t, "stream")]
 			var seq uint16
 			kind := rapid.IntRange(0, 13).Draw(t, "kind")
